@@ -32,9 +32,9 @@ func init() {
 
 func runC15(c *engine.Ctx) {
 	r1 := c.Rule("R1", "build step with possibly-positive size is reached only through the receive from AllocateBlockMemory(peer, size)", 1)
-	r2 := c.Rule("R2", "for every responseOperation: size() possibly positive => build() adds the same bytes to the released measure under the same condition", 3)
-	r3 := c.Rule("R3", "exactly one terminal report per extracted message on every path; each terminal report releases msgSize exactly once", 4)
-	r4 := c.Rule("R4", "scrubbed bytes are summed over all builders; the builder scrub returns old size - new size", 2)
+	r2 := c.Rule("R2", "for every responseOperation: size() possibly positive => build() adds the same bytes to the released measure under the same condition", 2)
+	r3 := c.Rule("R3", "exactly one terminal report per extracted message on every path; each terminal report releases msgSize exactly once", 2)
+	r4 := c.Rule("R4", "scrubbed bytes are summed over all builders; the builder scrub returns old size - new size", 1)
 	r5 := c.Rule("R5", "every exit of the queue goroutine releases the peer's memory", 1)
 	r6 := c.Rule("R6", "a build closure given a reservation has no path that returns before applying its operations", 1)
 
